@@ -79,7 +79,16 @@ def handleNotifyOrder (impl : Json) : CaseResult :=
     why := if ok then "" else if bad then "disconnect-notification-delivered-after-the-peer-was-admitted-again"
       else "disconnect-notification-missing" }
 
+/-- handlers are only ever invoked for currently registered peers: a stream still in its header
+phase when the peer is removed has its context cancelled with the others -/
+def handleHeaderWindow (impl : Json) : CaseResult :=
+  let bad := jbool impl "handler_ran_for_unregistered_peer"
+  let ok := !bad && !(jbool impl "panic")
+  { model := mkObj [("handler_ran_for_unregistered_peer", false), ("panic", false)], spec := ok,
+    why := if ok then "" else if bad then "handler-invoked-for-a-peer-that-is-not-registered" else "wrapper-panicked" }
+
 def handle (inp impl : Json) : CaseResult :=
+  if jstr inp "tag" == "header-window" then handleHeaderWindow impl else
   if jstr inp "tag" == "notify-order" then handleNotifyOrder impl else
   let ops := (jarr inp "ops").toList.map opOf
   let m := mkObj [("steps", Json.arr (runSnaps init ops).toArray)]
